@@ -8,6 +8,13 @@ out=$(mktemp)
 /venv/bin/python tools/rename_one.py list | xargs -P 16 -L 1 tools/rename_run.sh > "$out" 2>&1
 echo "single renames: $(wc -l < "$out") variants, $(grep -c 'V: C' "$out") reported, $(grep -c 'I: C' "$out") not decided"
 grep 'V: C' "$out"
+# 4. one site at a time: an if/else with its test negated and its branches swapped; a comparison with its operands the other
+#    way round; a returned expression first put into a local; `x += n` written `x = x + n`; `not (a and b)` written
+#    `(not a) or (not b)` and `if a and b:` written as two nested ifs
+out2=$(mktemp)
+(for k in swap flip temp aug demorgan; do /venv/bin/python tools/mech_one.py list $k; done) | xargs -P 16 -L 1 tools/mech_run.sh > "$out2" 2>&1
+echo "single-site rewrites: $(grep -c ' | V:' "$out2") variants, $(grep -c 'V: C' "$out2") reported, $(grep -c 'I: C' "$out2") not decided"
+grep 'V: C' "$out2"; rm -f "$out2"
 for mode in format unparse; do
   d=$(mktemp -d); (cd $d && git -C /repo archive HEAD | tar -x)
   if [ $mode = format ]; then /venv/bin/ruff format --line-length 100 $d/fsic >/dev/null 2>&1; else /venv/bin/python - $d <<'PY'
